@@ -603,7 +603,8 @@ fn wrap_with(x: &Seq, w: Wrap, f: Fill, y: &[Kind]) -> Seq {
 /// larger context set (six wrappers, fillers a / *), otherwise four wrappers and fillers a /.
 pub fn position_family(depth: usize, full: bool) -> Vec<Seq> {
     let cores: Vec<Seq> = [
-        "a", "/", "*", "/a", "a/", "*a", "a*", "**/a", "a/**", "/**/a", "a/**/a", "/a/", "*/", "/*", "**/", "/**", "(?i)a",
+        "a", "/", "*", "/a", "a/", "*a", "a*", "**/a", "a/**", "/**/a", "a/**/a", "/a/", "*/", "/*", "**/", "/**", "(?i)a", "a/a",
+        "a/a/a",
     ]
     .iter()
     .filter_map(|t| crate::syntax::parse(t).ok())
